@@ -360,7 +360,7 @@ fn find_value<C: Col, F: Fb<C>>(fb: &F, w: i32, h: i32, want: Option<u32>) -> Op
 fn main() {
     main_with("c10", "exploration", |run| {
         run.set_rule(
-            "Framebuffer instantiations: 7 colour depths (1,2,4,8,16,24,32 bits) x 2 data orders x sizes {1x1,3x2,5x3,8x2,9x4,13x7} with exact buffers and oversized (N+3, tail pre-filled with 0xA5) buffers for three of the sizes, plus six wide instantiations (257..2051 pixels per row); \
+            "Framebuffer instantiations: 7 colour depths (1,2,4,8,16,24,32 bits) x 2 data orders x sizes {1x1,3x2,5x3,8x2,9x4,13x7 and the portrait shapes 2x5,4x9,7x13} with exact buffers and oversized (N+3, tail pre-filled with 0xA5) buffers for four of the sizes, plus six wide instantiations (257..2051 pixels per row) and three tall ones (257..300 rows); \
              per instantiation random histories of 1..=14 operations (set_pixel in/out of range incl. i32::MIN/MAX, draw_iter, fill_solid, fill_contiguous with short/exact/long streams, clear, a styled circle via draw(), wholly out-of-range writes); \
              after every operation pixel() is compared with the reference map on the area plus a ring, data() with the documented layout, the tail bytes with their pre-fill. Non-trivial = at least two operations changed in-range pixels; distinct = distinct (instantiation, operation trace).",
         );
@@ -385,6 +385,10 @@ fn main() {
                 inst!($c, $o, 3, 2, 3);
                 inst!($c, $o, 9, 4, 3);
                 inst!($c, $o, 13, 7, 3);
+                // portrait shapes (more rows than columns)
+                inst!($c, $o, 2, 5, 0);
+                inst!($c, $o, 4, 9, 3);
+                inst!($c, $o, 7, 13, 0);
             };
         }
         macro_rules! orders {
@@ -410,6 +414,10 @@ fn main() {
         wide!(Gray8, LittleEndianMsb0, 257, 3, 5);
         wide!(Rgb565, BigEndianLsb0, 260, 2, 0);
         wide!(Rgb888, LittleEndianMsb0, 300, 2, 3);
+        // tall framebuffers: more than 255 rows
+        wide!(BinaryColor, BigEndianLsb0, 3, 300, 0);
+        wide!(Gray2, LittleEndianMsb0, 5, 260, 3);
+        wide!(Rgb565, LittleEndianMsb0, 2, 257, 0);
         orders!(BinaryColor);
         orders!(Gray2);
         orders!(Gray4);
